@@ -46,7 +46,7 @@ def lean_type(t) -> str:
             return " × ".join(lean_type_atom(x) for x in t[1])
     return {"int": "Int", "nat": "Nat", "bool": "Bool", "dir": "Dir", "mode": "Mode", "agent": "Agent", "num": "Num", "R": "R",
             "coords": "List Coord", "es": "ES R", "unit": "Unit", "gen": "List Agent", "cfg": "StopCfg R", "book": "Book R",
-            "A": "α"}[t]
+            "A": "α", "str": "String", "task": "τ", "self": "Self R σ τ"}[t]
 
 
 def lean_type_atom(t) -> str:
@@ -73,6 +73,17 @@ ATTRS = {
 }
 
 EXC = {"ValueError": "Err.valueError", "IndexError": "Err.indexError", "TypeError": "Err.typeError"}
+
+# the instance record of `optimize` (PvModel/Py.lean: Self): python attribute -> (record field, type)
+SELF_FIELDS = {
+    "_config": ("config", O("cfg")), "_debug": ("debug", "bool"), "_mode": ("mode", "mode"), "_workers": ("workers", "int"),
+    "_task": ("task", O("task")), "_population": ("population", L("agent")), "_best_agent": ("best_agent", O("agent")),
+    "_worst_agent": ("worst_agent", O("agent")), "_current_cycle": ("current_cycle", "int"), "_errors": ("errors", L("R")),
+    "_error_diffs": ("error_diffs", L("R")),
+}
+# hooks: overridable methods / opaque library calls of `optimize` (PvModel/Py.lean: Hooks)
+HOOK_METHODS = {"before_initialization": "before_initialization", "_init_population": "init_population",
+                "after_initialization": "after_initialization", "optimization_step": "optimization_step"}
 
 # ------------------------------------------------------------------------------------------------ the functions translated
 # name: Lean name; src: (file, qualname); params: python name -> type (in source order, `self` excluded);
@@ -114,6 +125,34 @@ SPEC = [
          selfr={"_config": ("cfg", "cfg"), "_current_cycle": ("self_cycle", "int"), "_population": ("self_population", L("agent"))},
          selfw={"_errors": ("self_errors", L("R")), "_error_diffs": ("self_diffs", L("R"))}, ret=T("R", "R", "bool"), R=True,
          opaque={"average_fitness": ("average_fitness", "List Agent → R", "R")}, consts={"1": "one"}),
+    dict(name="population_init", src=("models.py", "Population.__init__"), kwargs={"agents": L("agent"), "task_type": "dir"}, params={}, ret=L("agent"),
+         ret_fields=["agents"], nested={"refine_agent": dict(params={"a": "agent", "tt": "dir"}, ret="agent")}),
+    dict(name="result_init", src=("models.py", "OptimizationResult.__init__"),
+         kwargs={"evolution": L(L("agent")), "rates": L("R"), "best_solution": O("agent"), "task_type": "dir"}, params={},
+         ret=T(L(L("agent")), L("R"), O("agent"), "dir"), ret_fields=["evolution", "rates", "best_solution", "task_type"], Rtype=True,
+         nested={"refine_best_solution": dict(params={"a": "agent", "tt": "dir"}, ret="agent")}),
+    dict(name="optimize", src=("abstract.py", "OptimizationAbstract.optimize"), params={"task": "task", "mode": O("str"), "workers": O("int")},
+         ret=T(L(L("agent")), L("R"), O("agent"), "dir"), R=True, selfrec=True, hooks=True, fuel=True,
+         opaque={"average_fitness": ("average_fitness", "List Agent → R", "R")}, consts={"1": "one"},
+         locals={"evolution": L(L("agent"))}),
+    dict(name="cont_get_bounds", src=("models.py", "ContinuousVariable.get_bounds"), params={}, ret=T("num", "num"),
+         selfr={"lower_bound": ("lower_bound", "num"), "upper_bound": ("upper_bound", "num")}),
+    dict(name="cont_correct", src=("models.py", "ContinuousVariable.correct"), params={"value": "num"}, ret="num",
+         selfr={"lower_bound": ("lower_bound", "num"), "upper_bound": ("upper_bound", "num")}),
+    dict(name="cont_decode", src=("models.py", "ContinuousVariable.decode"), params={"value": "num"}, ret="num"),
+    dict(name="cont_size", src=("models.py", "ContinuousVariable.size"), params={}, ret="int"),
+    dict(name="cont_has_children", src=("models.py", "ContinuousVariable.has_children"), params={}, ret="bool"),
+    dict(name="disc_get_bounds", src=("models.py", "DiscreteVariable.get_bounds"), params={}, ret=T("int", "int"), poly=True,
+         selfr={"choices": ("choices", L("A"))}),
+    dict(name="disc_correct", src=("models.py", "DiscreteVariable.correct"), params={"value": "num"}, ret="int", poly=True,
+         selfr={"choices": ("choices", L("A"))}),
+    dict(name="disc_decode", src=("models.py", "DiscreteVariable.decode"), params={"value": "num"}, ret="A", poly=True,
+         selfr={"choices": ("choices", L("A"))}),
+    dict(name="disc_size", src=("models.py", "DiscreteVariable.size"), params={}, ret="int"),
+    dict(name="disc_has_children", src=("models.py", "DiscreteVariable.has_children"), params={}, ret="bool"),
+    dict(name="perm_correct", src=("models.py", "PermutationVariable.correct"), params={"value": L("num")}, ret=L("nat")),
+    dict(name="perm_size", src=("models.py", "PermutationVariable.size"), params={}, ret="int"),
+    dict(name="perm_has_children", src=("models.py", "PermutationVariable.has_children"), params={}, ret="bool"),
     dict(name="agent_trend", src=("utils.py", "agent_trend"), params={"result": "result", "idx": "int", "iters": O(L("int"))}, ret=L("num")),
     dict(name="best_agent_trend", src=("utils.py", "best_agent_trend"), params={"result": "result", "iters": O(L("int"))}, ret=L("num")),
     dict(name="agent_position", src=("utils.py", "agent_position"), params={"result": "result", "idx": "int", "iters": O(L("int"))}, ret=L("coords")),
@@ -146,6 +185,10 @@ class Fn:
         self.selfw = dict(spec.get("selfw", {}))
         self.fresh = 0
         self.lines: list[str] = []
+        self.selfrec = bool(spec.get("selfrec"))
+        self.cur_pad = "  "
+        self.in_lambda = 0
+        self.loop_defs: list[str] = []
 
     # ---- helpers
     def err(self, node, why):
@@ -153,6 +196,8 @@ class Fn:
 
     def ret_type(self):
         r = self.spec["ret"]
+        if self.spec.get("selfrec"):
+            return T(r, "self")
         ws = [t for _, t in self.selfw.values()]
         if not ws:
             return r
@@ -161,6 +206,8 @@ class Fn:
         return T(r, *ws)
 
     def ret_term(self, val):
+        if self.selfrec:
+            return f"({val}, self)"
         ws = [n for n, _ in self.selfw.values()]
         if not ws:
             return val if val is not None else "()"
@@ -223,6 +270,12 @@ class Fn:
             self.err(n, f"unknown name {n.id}")
         if isinstance(n, ast.Attribute):
             sp = self.self_path(n)
+            if sp is not None and self.selfrec:
+                head, _, rest = sp.partition(".")
+                if head in SELF_FIELDS and not rest:
+                    f, ty = SELF_FIELDS[head]
+                    return f"self.{f}", ty
+                self.err(n, f"self.{sp} is not a framework attribute")
             if sp is not None:
                 if sp in self.selfw:
                     return self.selfw[sp]
@@ -243,6 +296,8 @@ class Fn:
             if isinstance(n.value, ast.Name) and env.get(n.value.id, (None, None))[1] == "result":
                 if n.attr in RESULT_FIELDS:
                     return RESULT_FIELDS[n.attr]
+            if isinstance(n.value, ast.Name) and env.get(n.value.id, (None, None))[1] == "task" and self.spec.get("hooks") and n.attr in ("minmax", "seed"):
+                return f"(H.task_{n.attr} {env[n.value.id][0]})", {"minmax": "dir", "seed": "int"}[n.attr]
             if n.attr == "agents":      # Population.agents: a recorded generation is its list of agents
                 bt, bty = self.E(n.value, env)
                 if bty == L("agent"):
@@ -254,6 +309,7 @@ class Fn:
             self.err(n, f"attribute .{n.attr} of a value of type {bty}")
         if isinstance(n, ast.Tuple):
             parts = [self.E(e, env) for e in n.elts]
+            parts = [((f"({p} : Int)", "int") if t == "intlit" else (p, t)) for p, t in parts]
             return "(" + ", ".join(p for p, _ in parts) + ")", T(*[t for _, t in parts])
         if isinstance(n, ast.List):
             if not n.elts:
@@ -269,6 +325,8 @@ class Fn:
                     return f"(-{atom(v)})", "int"
                 if ty == "nat":
                     return f"(-({v} : Int))", "int"
+                if ty == "num":
+                    return f"(Num.neg {atom(v)})", "num"
             self.err(n, "unary operator")
         if isinstance(n, ast.BoolOp):
             op = " && " if isinstance(n.op, ast.And) else " || "
@@ -434,6 +492,13 @@ class Fn:
             self.err(n, f"iteration over a {ity}")
         env2 = dict(env)
         pat = self.bind_target(g.target, ity[1], env2)
+        self.in_lambda += 1
+        try:
+            return self._listcomp_body(n, g, env2, pat, it)
+        finally:
+            self.in_lambda -= 1
+
+    def _listcomp_body(self, n, g, env2, pat, it):
         src = it
         for cond in g.ifs:
             c, cty = self.E(cond, env2)
@@ -470,6 +535,21 @@ class Fn:
                     # `all([f(x) for x in xs])`: keep the comprehension visible as List.all
                     return f"({atom(t)}.all id)", "bool"
                 self.err(n, f"all() of a {ty}")
+            if name == "float" and len(n.args) == 1 and not n.keywords:
+                t, ty = self.E(n.args[0], env)
+                if ty == "num":
+                    return t, "num"         # a double stays the double it is
+                if ty in ("int", "intlit", "nat"):
+                    return f"(intNum {atom(t)})", "num"
+                self.err(n, f"float() of a {ty}")
+            if name == "int" and len(n.args) == 1 and not n.keywords:
+                t, ty = self.E(n.args[0], env)
+                if ty == "num":
+                    self.need_eff(n)
+                    return f"(← Py.intOfNum {atom(t)})", "int"
+                if ty in ("int", "intlit"):
+                    return t, "int"
+                self.err(n, f"int() of a {ty}")
             if name == "abs" and len(n.args) == 1:
                 t, ty = self.E(n.args[0], env)
                 if ty == "R":
@@ -496,11 +576,38 @@ class Fn:
                 return f"({pname} " + " ".join(atom(a) for a in args) + ")", rty
             if name in self.table:
                 return self.call_translated(name, n, env, method=False)
+            if name in self.spec.get("nested", {}):
+                nd = self.spec["nested"][name]
+                if n.keywords or len(n.args) != len(nd["params"]):
+                    self.err(n, f"call of nested function {name}")
+                args = []
+                for a, (pn, pty) in zip(n.args, nd["params"].items()):
+                    t, ty = self.E(a, env, pty)
+                    args.append(atom(self.coerce(t, ty, pty, a)))
+                return f"({self.spec['name']}_{name} " + " ".join(args) + ")", nd["ret"]
+            if name == "ModeSolver" and self.spec.get("hooks") and len(n.args) == 1 and not n.keywords:
+                t, ty = self.E(n.args[0], env)
+                if ty != "str":
+                    self.err(n, f"ModeSolver of a {ty}")
+                self.need_eff(n)
+                return f"(← H.parse_mode {atom(t)})", "mode"
             self.err(n, f"call of unknown function {name}")
         if isinstance(f, ast.Attribute):
+            if isinstance(f.value, ast.Name) and f.value.id == "np" and f.attr == "clip" and len(n.args) == 3 and not n.keywords:
+                parts = []
+                for a in n.args:
+                    t, ty = self.E(a, env)
+                    if ty in ("int", "intlit", "nat"):
+                        t, ty = f"(intNum {atom(t)})", "num"
+                    if ty != "num":
+                        self.err(n, f"np.clip argument of type {ty}")
+                    parts.append(atom(t))
+                return f"(Num.clip {parts[0]} {parts[1]} {parts[2]})", "num"
             # np.argsort(xs, axis=0)
             if isinstance(f.value, ast.Name) and f.value.id == "np" and f.attr == "argsort":
                 t, ty = self.E(n.args[0], env)
+                if ty == L("nat") and not n.keywords:
+                    return f"(Py.npArgsort ({atom(t)}.map natNum))", L("nat")
                 if ty != L("num"):
                     self.err(n, f"np.argsort of a {ty}")
                 for kw in n.keywords:
@@ -510,9 +617,29 @@ class Fn:
             if isinstance(f.value, ast.Name) and f.value.id == "parallel" and f.attr == "as_completed" and len(n.args) == 1:
                 t, ty = self.E(n.args[0], env)
                 return f"(Py.asCompleted σ {atom(t)})", ty
+            if isinstance(f.value, ast.Name) and f.value.id == "kwargs" and f.attr == "get" and "kwargs" in self.spec and n.args \
+                    and isinstance(n.args[0], ast.Constant) and n.args[0].value in self.spec["kwargs"]:
+                k = n.args[0].value
+                return f"kw_{k}", self.spec["kwargs"][k]
+            if f.attr == "model_copy" and not n.args and len(n.keywords) == 1 and n.keywords[0].arg == "update" and isinstance(n.keywords[0].value, ast.Dict):
+                bt, bty = self.E(f.value, env)
+                if bty != "agent":
+                    self.err(n, f"model_copy(update=…) of a {bty}")
+                ups = []
+                for k, v in zip(n.keywords[0].value.keys, n.keywords[0].value.values):
+                    if not (isinstance(k, ast.Constant) and ("agent", k.value) in ATTRS):
+                        self.err(n, "model_copy(update=…) of an unknown field")
+                    vt, vty = self.E(v, env)
+                    if vty != ATTRS[("agent", k.value)][1]:
+                        self.err(n, f"model_copy(update=…) stores a {vty} into {k.value}")
+                    ups.append(f"{k.value} := {vt}")
+                return "{ " + bt + " with " + ", ".join(ups) + " }", "agent"
             # self.method(...)
             if isinstance(f.value, ast.Name) and f.value.id == "self":
                 key = "self." + f.attr
+                cls = self.spec["src"][1].split(".")[0] if "." in self.spec["src"][1] else None
+                if cls and f"{cls}::{key}" in self.table:
+                    key = f"{cls}::{key}"
                 if key in self.table:
                     return self.call_translated(key, n, env, method=True)
                 self.err(n, f"call of self.{f.attr}")
@@ -531,6 +658,8 @@ class Fn:
 
     def call_translated(self, key, n, env, method):
         callee_spec, callee_node = self.table[key]
+        if "kwargs" in callee_spec:
+            return self.call_kwargs_ctor(callee_spec, callee_node, n, env)
         params = [a.arg for a in callee_node.args.args if a.arg != "self"]
         defaults = callee_node.args.defaults
         dmap = dict(zip(params[len(params) - len(defaults):], defaults)) if defaults else {}
@@ -581,8 +710,51 @@ class Fn:
         rty = subst(callee.ret_type())
         if callee_spec["name"] in self.effectful:
             self.need_eff(n)
-            return f"(← {term})", rty
-        return f"({term})", rty
+            term = f"(← {term})"
+        else:
+            term = f"({term})"
+        if self.selfrec and callee_spec.get("selfw"):
+            # the callee returns (value, written fields…): store the fields back into the instance, hand on the value
+            if self.in_lambda:
+                self.err(n, "call of a state-writing method inside a comprehension")
+            self.fresh += 1
+            k = self.fresh
+            names = [f"w{k}_{SELF_FIELDS[path][0]}" for path in callee_spec["selfw"]]
+            has_val = callee_spec["ret"] != "unit"
+            pat = "(" + ", ".join(([f"r{k}"] if has_val else []) + names) + ")" if (len(names) + has_val) > 1 else names[0]
+            self.lines.append(f"{self.cur_pad}let {pat} := {term}")
+            ups = ", ".join(f"{SELF_FIELDS[path][0]} := {nm}" for path, nm in zip(callee_spec["selfw"], names))
+            self.lines.append(f"{self.cur_pad}self := {{ self with {ups} }}")
+            return (f"r{k}" if has_val else "()"), callee_spec["ret"]
+        return term, rty
+
+    def call_kwargs_ctor(self, cs, cnode, n, env):
+        """`Population(agents=…, task_type=…)`: the `__init__(**kwargs)` translated with one parameter per keyword it reads;
+        a keyword the caller omits takes the default of the callee's own `kwargs.get(name, default)`"""
+        if n.args:
+            self.err(n, "positional argument to a keyword-only constructor")
+        given = {kw.arg: kw.value for kw in n.keywords}
+        for k in given:
+            if k not in cs["kwargs"]:
+                self.err(n, f"unknown keyword {k}")
+        defaults = {}
+        for x in ast.walk(cnode):
+            if isinstance(x, ast.Call) and isinstance(x.func, ast.Attribute) and x.func.attr == "get" and isinstance(x.func.value, ast.Name) \
+                    and x.func.value.id == "kwargs" and x.args and isinstance(x.args[0], ast.Constant) and len(x.args) == 2:
+                defaults.setdefault(x.args[0].value, x.args[1])
+        args = []
+        for k, kty in cs["kwargs"].items():
+            if k in given:
+                t, ty = self.E(given[k], env, kty)
+                args.append(atom(self.coerce(t, ty, kty, given[k])))
+            elif k in defaults:
+                t, ty = self.E(defaults[k], {}, kty)
+                args.append(atom(self.coerce(t, ty, kty, defaults[k])))
+            elif isinstance(kty, tuple) and kty[0] == "opt":
+                args.append("none")
+            else:
+                self.err(n, f"keyword {k} omitted and the constructor has no default for it")
+        return f"({cs['name']} " + " ".join(args) + ")", cs["ret"]
 
     def implicit_args(self, cs, node):
         out = []
@@ -594,7 +766,19 @@ class Fn:
             out.append(c)
         if cs.get("pool"):
             out.append("σ")
-        for path, (pname, _) in list(cs.get("selfr", {}).items()) + list(cs.get("selfw", {}).items()):
+        for path, (pname, pty) in list(cs.get("selfr", {}).items()) + list(cs.get("selfw", {}).items()):
+            if self.selfrec:
+                if path not in SELF_FIELDS:
+                    self.err(node, f"callee needs self.{path}, which is not a framework attribute")
+                f, fty = SELF_FIELDS[path]
+                if fty == pty:
+                    out.append(f"self.{f}")
+                elif fty == O(pty):       # e.g. self._config: reading an attribute of None raises AttributeError
+                    self.need_eff(node)
+                    out.append(f"(← Py.attrOf self.{f})")
+                else:
+                    self.err(node, f"self.{path} has type {fty}, the callee expects {pty}")
+                continue
             mine = self.selfr.get(path) or self.selfw.get(path)
             if mine is None:
                 self.err(node, f"callee needs self.{path}, which is not in the caller's declared state")
@@ -609,7 +793,26 @@ class Fn:
         while i < len(stmts):
             s = stmts[i]
             i += 1
+            self.cur_pad = pad
             if isinstance(s, ast.Expr) and isinstance(s.value, ast.Constant) and isinstance(s.value.value, str):
+                continue
+            if print_only(s):          # debug output: no effect on any value
+                continue
+            if isinstance(s, ast.FunctionDef) and s.name in self.spec.get("nested", {}):
+                continue               # emitted as a separate definition
+            if isinstance(s, ast.AnnAssign) and isinstance(s.target, ast.Name) and s.value is not None:
+                self.assign(s.target, s.value, env, pad)
+                continue
+            if isinstance(s, ast.Break):
+                if not self.loop_ret:
+                    self.err(s, "break outside a translated loop")
+                self.lines.append(f"{pad}return {self.loop_ret[-1]}")
+                return True
+            if isinstance(s, ast.While):
+                self.while_true(s, env, ind)
+                continue
+            if isinstance(s, ast.Try):
+                self.try_stmt(s, env, ind)
                 continue
             if isinstance(s, ast.Return):
                 if s.value is None:
@@ -631,6 +834,13 @@ class Fn:
                     self.err(s, "chained assignment")
                 self.assign(s.targets[0], s.value, env, pad)
                 continue
+            if isinstance(s, ast.AugAssign) and self.selfrec and self.self_path(s.target) in SELF_FIELDS:
+                f, fty = SELF_FIELDS[self.self_path(s.target)]
+                v, vty = self.E(s.value, env)
+                if isinstance(s.op, ast.Add) and fty == "int" and vty in ("int", "intlit"):
+                    self.lines.append(f"{pad}self := {{ self with {f} := self.{f} + {v} }}")
+                    continue
+                self.err(s, "augmented assignment to a framework attribute")
             if isinstance(s, ast.AugAssign):
                 if not isinstance(s.target, ast.Name) or s.target.id not in env:
                     self.err(s, "augmented assignment target")
@@ -674,7 +884,47 @@ class Fn:
             self.err(s, f"statement {type(s).__name__}")
         return False
 
+    def store(self, target, term, ty, env, pad, node):
+        """store a computed value into an arbitrary target (name, framework attribute, nested tuples)"""
+        if isinstance(target, ast.Name):
+            self.declare(target.id, ty, term, env, pad)
+            return
+        sp = self.self_path(target)
+        if sp is not None and self.selfrec:
+            if sp not in SELF_FIELDS:
+                self.err(target, f"store into self.{sp}, which is not a framework attribute")
+            f, fty = SELF_FIELDS[sp]
+            self.lines.append(f"{pad}self := {{ self with {f} := {self.coerce(term, ty, fty, node)} }}")
+            return
+        if isinstance(target, ast.Tuple) and len(target.elts) == 1 and isinstance(ty, tuple) and ty[0] == "list":
+            self.need_eff(target)
+            self.fresh += 1
+            u = f"u{self.fresh}"
+            self.lines.append(f"{pad}let {u} ← Py.unpack1 {atom(term)}")
+            self.store(target.elts[0], u, ty[1], env, pad, node)
+            return
+        if isinstance(target, ast.Tuple) and isinstance(ty, tuple) and ty[0] == "tuple" and len(ty[1]) == len(target.elts):
+            names = []
+            for _ in target.elts:
+                self.fresh += 1
+                names.append(f"u{self.fresh}")
+            self.lines.append(f"{pad}let ({', '.join(names)}) := {term}")
+            for e, nm, t in zip(target.elts, names, ty[1]):
+                self.store(e, nm, t, env, pad, node)
+            return
+        self.err(target, f"assignment target for a {ty}")
+
     def assign(self, target, value, env, pad):
+        if isinstance(target, ast.Subscript) and isinstance(target.value, ast.Name) and target.value.id == "kwargs" and "kwargs" in self.spec \
+                and isinstance(target.slice, ast.Constant) and target.slice.value in self.spec["kwargs"]:
+            k = target.slice.value
+            v, vty = self.E(value, env, self.spec["kwargs"][k])
+            self.lines.append(f"{pad}kw_{k} := {self.coerce(v, vty, self.spec['kwargs'][k], value)}")
+            return
+        if self.selfrec and (self.self_path(target) is not None or (isinstance(target, ast.Tuple) and any(not isinstance(e, ast.Name) for e in target.elts))):
+            v, vty = self.E(value, env)
+            self.store(target, v, vty, env, pad, value)
+            return
         # x, = e   /  (a,), (b,) = e
         if isinstance(target, ast.Tuple) and len(target.elts) == 1 and isinstance(target.elts[0], ast.Name):
             v, vty = self.E(value, env)
@@ -696,6 +946,10 @@ class Fn:
         if isinstance(target, ast.Name):
             want = env[target.id][1] if target.id in env else None
             v, vty = self.E(value, env, want)
+            if isinstance(value, (ast.Name, ast.Attribute)) and isinstance(vty, tuple) and vty[0] == "list":
+                src = value.id if isinstance(value, ast.Name) else None
+                if target.id in self.inplace or (src is not None and src in self.inplace) or (src is None and self.self_path(value) is not None):
+                    self.err(value, "alias of a list that is edited in place")
             if vty in ("emptylist", "none", "intlit"):
                 if want is not None:
                     v = self.coerce(v, vty, want, value)
@@ -742,6 +996,23 @@ class Fn:
                 self.muts.add(name)
 
     def expr_stmt(self, v, env, pad):
+        if isinstance(v, ast.Call) and isinstance(v.func, ast.Attribute) and self.spec.get("hooks"):
+            f = v.func
+            if isinstance(f.value, ast.Name) and f.value.id == "self" and f.attr in HOOK_METHODS and not v.args and not v.keywords:
+                self.need_eff(v)
+                self.lines.append(f"{pad}self ← H.{HOOK_METHODS[f.attr]} self")
+                return
+            if ast.unparse(f) == "np.random.seed" and len(v.args) == 1 and not v.keywords:
+                t, ty = self.E(v.args[0], env)
+                if ty != "int":
+                    self.err(v, f"np.random.seed of a {ty}")
+                self.lines.append(f"{pad}self := {{ self with priv := H.np_random_seed {atom(t)} self.priv }}")
+                return
+        if "kwargs" in self.spec and ast.unparse(v) == "super().__init__(**kwargs)":
+            fields = ["kw_" + k for k in self.spec["ret_fields"]]
+            self.lines.append(f"{pad}return " + (fields[0] if len(fields) == 1 else "(" + ", ".join(fields) + ")"))
+            self.ended = True
+            return
         if isinstance(v, ast.Call) and isinstance(v.func, ast.Attribute):
             f = v.func
             recv_self = self.self_path(f.value)
@@ -767,9 +1038,23 @@ class Fn:
                     self.err(v, "sort without a key")
                 self.lines.append(f"{pad}{cur} := Py.sortKey {key} {atom(rev or 'false')} {cur}")
                 return
+            if f.attr == "append" and len(v.args) == 1 and isinstance(v.args[0], (ast.Name, ast.Attribute)):
+                # value semantics are only sound when no alias of a mutable list is retained: `history.append(self._population)`
+                # would record the live list object, which later in-place edits rewrite
+                at, aty = self.E(v.args[0], env)
+                if isinstance(aty, tuple) and aty[0] == "list":
+                    self.err(v, "a list is stored without being copied (aliasing: later in-place edits would rewrite the stored value)")
             if f.attr in ("append", "extend") and len(v.args) == 1:
                 if isinstance(f.value, ast.Name) and f.value.id in env and f.value.id in self.muts:
                     cur, cty = env[f.value.id]
+                elif recv_self is not None and self.selfrec and recv_self in SELF_FIELDS:
+                    fld, cty = SELF_FIELDS[recv_self]
+                    a, aty = self.E(v.args[0], env, cty[1] if f.attr == "append" else cty)
+                    if f.attr == "append":
+                        self.lines.append(f"{pad}self := {{ self with {fld} := self.{fld} ++ [{self.coerce(a, aty, cty[1], v.args[0])}] }}")
+                    else:
+                        self.lines.append(f"{pad}self := {{ self with {fld} := self.{fld} ++ {a} }}")
+                    return
                 elif recv_self is not None and recv_self in self.selfw:
                     cur, cty = self.selfw[recv_self]
                 else:
@@ -787,6 +1072,85 @@ class Fn:
         if t == "()":
             return
         self.err(v, "expression statement with an unmodelled effect")
+
+    def while_true(self, s, env, ind):
+        """`while True: … if c: break …` -> a fuelled recursive definition over the variables the loop carries"""
+        pad = "  " * ind
+        if not (isinstance(s.test, ast.Constant) and s.test.value is True) or s.orelse:
+            self.err(s, "loop other than `while True:`")
+        if not self.spec.get("fuel"):
+            self.err(s, "while loop in a function without a fuel parameter")
+        assigned = set()
+        for x in ast.walk(s):
+            if isinstance(x, (ast.Assign, ast.AugAssign)):
+                for t in (x.targets if isinstance(x, ast.Assign) else [x.target]):
+                    for nm in ast.walk(t):
+                        if isinstance(nm, ast.Name) and nm.id in env:
+                            assigned.add(nm.id)
+            if isinstance(x, ast.Call) and isinstance(x.func, ast.Attribute) and x.func.attr in ("append", "extend", "sort") and isinstance(x.func.value, ast.Name) and x.func.value.id in env:
+                assigned.add(x.func.value.id)
+        carried = (["self"] if self.selfrec else []) + sorted(assigned)
+        ctypes = [("self" if c == "self" else env[c][1]) for c in carried]
+        tup = "(" + ", ".join(carried) + ")" if len(carried) > 1 else carried[0]
+        lname = f"{self.spec['name']}_loop"
+        # the loop body, translated with the carried variables as mutable locals
+        saved_lines, saved_muts = self.lines, set(self.muts)
+        self.lines = []
+        self.loop_ret.append(tup)
+        env2 = dict(env)
+        for c in carried:
+            self.lines.append(f"    let mut {c} := {c}")
+            if c != "self":
+                self.muts.add(c)
+        ended = self.S(s.body, env2, 2)
+        if not ended:
+            self.lines.append(f"    {lname} {self.sig_args} fuel " + " ".join(carried))
+        body = self.lines
+        self.loop_ret.pop()
+        self.lines, self.muts = saved_lines, saved_muts
+        params = " ".join(f"({c} : {lean_type('self' if c == 'self' else env[c][1])})" for c in carried)
+        rty = " × ".join(lean_type_atom(t) for t in ctypes)
+        free = sorted(nm for nm in env if nm not in carried and nm in {x.id for x in ast.walk(s) if isinstance(x, ast.Name)})
+        fparams = " ".join(f"({nm} : {lean_type(env[nm][1])})" for nm in free)
+        self.loop_defs.append(
+            f"/-- the `while True:` loop of `{self.spec['src'][1]}` (line {s.lineno}); `fuel` bounds the number of iterations, `break` returns -/\n"
+            f"def {lname} {self.sig_header} {fparams} (fuel : Nat) {params} : Except Err ({rty}) :=\n"
+            f"  match fuel with\n  | 0 => return {tup}\n  | fuel + 1 => do\n" + "\n".join(body) + "\n")
+        self.sig_loop_free = free
+        call = f"{lname} {self.sig_args} " + " ".join(free) + " fuel " + " ".join(carried)
+        # fix the recursive call inside the body to pass the free variables as well
+        self.loop_defs[-1] = self.loop_defs[-1].replace(f"{lname} {self.sig_args} fuel ", f"{lname} {self.sig_args} " + "".join(f + " " for f in free) + "fuel ")
+        self.need_eff(s)
+        ltup = "(" + ", ".join("l_" + c for c in carried) + ")" if len(carried) > 1 else "l_" + carried[0]
+        self.lines.append(f"{pad}let {ltup} ← {call}")
+        for c in carried:
+            self.lines.append(f"{pad}{c} := l_{c}")
+        # the carried locals are rebound by the pattern above (shadowing): keep them immutable from here on unless reassigned
+
+    def try_stmt(self, s, env, ind):
+        """`try: A except E: raise E2`"""
+        pad = "  " * ind
+        if s.orelse or s.finalbody or len(s.handlers) != 1:
+            self.err(s, "try statement shape")
+        h = s.handlers[0]
+        exc = h.type.id if isinstance(h.type, ast.Name) else None
+        if exc not in EXC or h.name is not None or len(h.body) != 1 or not isinstance(h.body[0], ast.Raise):
+            self.err(s, "exception handler shape")
+        r = h.body[0]
+        exc2 = r.exc.func.id if isinstance(r.exc, ast.Call) and isinstance(r.exc.func, ast.Name) else None
+        if exc2 not in EXC:
+            self.err(s, "handler raises an unmapped exception")
+        self.need_eff(s)
+        # the guarded statement must be a single assignment: its right-hand side is evaluated under the handler, the store
+        # itself (which cannot raise) happens after it
+        if len(s.body) != 1 or not isinstance(s.body[0], ast.Assign) or len(s.body[0].targets) != 1:
+            self.err(s, "try body other than a single assignment")
+        a = s.body[0]
+        v, vty = self.E(a.value, env)
+        self.fresh += 1
+        t = f"t{self.fresh}"
+        self.lines.append(f"{pad}let {t} ← tryCatch (do return {v}) (fun e => if e = {EXC[exc]} then throw {EXC[exc2]} else throw e)")
+        self.store(a.targets[0], t, vty, env, pad, a.value)
 
     def if_stmt(self, s, env, ind):
         pad = "  " * ind
@@ -823,6 +1187,10 @@ class Fn:
         params = [a.arg for a in fn.args.args if a.arg != "self"]
         if list(sp["params"].keys()) != params:
             raise Untranslatable(fn, f"parameters are {params}, the typing spec expects {list(sp['params'].keys())}")
+        if "kwargs" in sp and not (fn.args.kwarg is not None and fn.args.kwarg.arg == "kwargs"):
+            raise Untranslatable(fn, "constructor no longer takes **kwargs")
+        self.loop_ret = []
+        self.ended = False
         # locals assigned more than once / mutated in place -> `let mut`
         counts = {}
         self.local_types = {}
@@ -842,6 +1210,8 @@ class Fn:
                             if isinstance(t, ast.Name):
                                 counts[t.id] = counts.get(t.id, 0) + 2
         self.reassigned = {k for k, c in counts.items() if c >= 2}
+        self.inplace = {n.func.value.id for n in ast.walk(fn) if isinstance(n, ast.Call) and isinstance(n.func, ast.Attribute)
+                        and n.func.attr in ("sort", "append", "extend", "pop", "insert", "remove", "reverse", "clear") and isinstance(n.func.value, ast.Name)}
         self.muts = set()
         # forward typing of locals initialised with []: the type of the first append / later assignment
         self.local_types.update(sp.get("locals", {}))
@@ -849,14 +1219,19 @@ class Fn:
         header = []
         if sp.get("poly"):
             header.append("{α : Type}")
-        if sp.get("R"):
+        if sp.get("selfrec"):
+            header.append("{R σ τ : Type} (ar : Arith R) (H : Hooks R σ τ)")
+        elif sp.get("R"):
             header.append("{R : Type} (ar : Arith R)")
+        elif sp.get("Rtype"):
+            header.append("{R : Type}")
         for _, (pname, lty, _) in sp.get("opaque", {}).items():
             header.append(f"({pname} : {lty})")
         for c in sp.get("consts", {}).values():
             header.append(f"({c} : R)")
         if sp.get("pool"):
             header.append("(σ : List Nat)")
+        self.sig_header = " ".join(header)          # type / opaque parameters shared with a loop definition
         for path, (pname, ty) in list(self.selfr.items()) + list(self.selfw.items()):
             header.append(f"({pname} : {lean_type(ty)})")
         for p, ty in sp["params"].items():
@@ -867,22 +1242,50 @@ class Fn:
             else:
                 header.append(f"({p} : {lean_type(ty)})")
                 env[p] = (p, ty)
+        self.sig_args = " ".join(["ar"] * bool(sp.get("R")) + ["H"] * bool(sp.get("hooks")) + [pn for pn, _, _ in sp.get("opaque", {}).values()] + list(sp.get("consts", {}).values()))
+        for k, kty in sp.get("kwargs", {}).items():
+            header.append(f"(kw_{k} : {lean_type(kty)})")
+        if sp.get("fuel"):
+            header.append("(fuel : Nat)")
+        if sp.get("selfrec"):
+            header.append("(self : Self R σ τ)")
         rty = lean_type(self.ret_type())
         self.lines = []
+        if sp.get("selfrec"):
+            self.lines.append("  let mut self := self")
+        for k in sp.get("kwargs", {}):
+            self.lines.append(f"  let mut kw_{k} := kw_{k}")
         for pname, _ in self.selfw.values():
             self.lines.append(f"  let mut {pname} := {pname}")
         for p in sp["params"]:
             if p in self.reassigned and sp["params"][p] != "result":
                 self.lines.append(f"  let mut {p} := {p}")
                 self.muts.add(p)
-        done = self.S(fn.body, env, 1)
+        nested_defs = []
+        for st in fn.body:
+            if isinstance(st, ast.FunctionDef) and st.name in sp.get("nested", {}):
+                nd = sp["nested"][st.name]
+                sub = Fn(dict(name=f"{sp['name']}_{st.name}", src=(sp["src"][0], sp["src"][1] + "." + st.name), params=nd["params"], ret=nd["ret"]),
+                         st, self.table, self.effectful)
+                nested_defs.append(sub.translate())
+        done = self.S(fn.body, env, 1) or self.ended
         if not done:
             if sp["ret"] != "unit":
                 raise Untranslatable(fn, "control can reach the end of a function that returns a value")
             self.lines.append(f"  return {self.ret_term(None)}")
         head = f"def {sp['name']} " + " ".join(header) + " : " + (f"Except Err {atom_type(rty)}" if self.eff else rty) + " := " + ("do" if self.eff else "Id.run do")
         doc = f"/-- `{sp['src'][0]}:{sp['src'][1]}` (line {fn.lineno}) -/"
-        return doc + "\n" + head + "\n" + "\n".join(self.lines) + "\n"
+        pre = "".join(d + "\n" for d in nested_defs) + "".join(d + "\n" for d in self.loop_defs)
+        return pre + doc + "\n" + head + "\n" + "\n".join(self.lines) + "\n"
+
+
+def print_only(s) -> bool:
+    """a statement whose only effect is debug output: `print(...)`, or an `if` guarding nothing but such statements"""
+    if isinstance(s, ast.Expr) and isinstance(s.value, ast.Call) and isinstance(s.value.func, ast.Name) and s.value.func.id == "print":
+        return True
+    if isinstance(s, ast.If) and not s.orelse and all(print_only(x) for x in s.body):
+        return True
+    return False
 
 
 def atom(t: str) -> str:
@@ -919,7 +1322,7 @@ def infer_effects(table) -> set[str]:
         for n in (x for st in node.body for x in ast.walk(st)):
             if isinstance(n, ast.Raise):
                 own = True
-            if isinstance(n, ast.Subscript) and not isinstance(n.slice, ast.Slice):
+            if isinstance(n, ast.Subscript) and not isinstance(n.slice, ast.Slice) and not (isinstance(n.value, ast.Name) and n.value.id == "kwargs"):
                 own = True
             if isinstance(n, ast.BinOp) and isinstance(n.op, (ast.Mod, ast.FloorDiv, ast.Div)):
                 own = True
@@ -930,10 +1333,16 @@ def infer_effects(table) -> set[str]:
             if isinstance(n, ast.Call):
                 if isinstance(n.func, ast.Name) and n.func.id in table:
                     cs.add(n.func.id)
-                if isinstance(n.func, ast.Attribute) and isinstance(n.func.value, ast.Name) and n.func.value.id == "self" and ("self." + n.func.attr) in table:
-                    cs.add("self." + n.func.attr)
+                if isinstance(n.func, ast.Attribute) and isinstance(n.func.value, ast.Name) and n.func.value.id == "self":
+                    cls = sp["src"][1].split(".")[0] if "." in sp["src"][1] else None
+                    for cand in (f"{cls}::self.{n.func.attr}", "self." + n.func.attr):
+                        if cand in table:
+                            cs.add(cand)
+                            break
+                if isinstance(n.func, ast.Name) and n.func.id == "int":
+                    own = True
         calls[key] = cs
-        if own:
+        if own or sp.get("selfrec"):
             eff.add(key)
     changed = True
     while changed:
@@ -958,6 +1367,10 @@ def generate(repo: Path) -> tuple[str, dict]:
             report["untranslatable"][sp["name"]] = f"{fname}:{qual} not found"
             continue
         key = ("self." + qual.split(".")[-1]) if "." in qual else qual
+        if "." in qual and qual.split(".")[0] != "OptimizationAbstract":
+            key = qual.split(".")[0] + "::" + key
+        if qual.endswith(".__init__"):
+            key = qual.split(".")[0]
         table[key] = (sp, node)
     eff_keys, calls = infer_effects(table)
     effectful = {table[k][0]["name"] for k in eff_keys}
